@@ -259,7 +259,9 @@ def normal_jobs(r, n: int, prefix: str, max_boards: int = 3) -> List[tuple]:
                'twice': k % 8 == 6,
                # the command line ends the process when Server.run returns
                'exit_after_run': k % 4 == 1,
-               'stale_output': k % 6 == 2}
+               'stale_output': k % 6 == 2,
+               # the command lines of server and client switch DEBUG logging on
+               'debug_logging': k % 5 == 3}
         if k % 9 == 4:
             # team names outside ASCII
             cfg['teams'] = (r.choice(['Équipe Zürich', '東京', 'Ünïcødé']) + rand_id(r).strip(),
